@@ -6,6 +6,6 @@ export PYTEAL_REPO="${PYTEAL_REPO:-/repo}"
 if [ -f harness/translate.py ]; then
   PYTHONPATH="$PYTEAL_REPO" PYTHONHASHSEED=0 /venv/bin/python harness/translate.py
 fi
-( cd coq && coq_makefile -f _CoqProject -o Makefile >/dev/null && timeout 3000 make -j16 )
-( cd ocaml && ./build.sh )
+PYTHONPATH=harness /venv/bin/python -c "import common,sys; ok,out=common.coq_make(tag='all'); print(out[-3000:]); sys.exit(0 if ok else 1)"
+for e in coq/Extract/Extract*.v; do n=$(basename $e .v); n=${n#Extract}; n=${n#_}; ( cd ocaml && ./build.sh ${n:-main} ); done
 echo "setup ok"
